@@ -615,8 +615,9 @@ def check_lookup(ctx, tool):
     raised = set()
     for n in walk_no_nested(miss.node):
         if isinstance(n, ast.Raise) and n.exc is not None:
-            c = n.exc.func if isinstance(n.exc, ast.Call) else n.exc
-            raised.add(prog.resolve(miss.module, c))
+            from ..util import raised_class_exprs
+            for c in raised_class_exprs(miss.node, n):
+                raised.add(prog.resolve(miss.module, c))
     pm = parent_map(tool.node)
     n_sites = 0
     for n in walk_no_nested(tool.node):
